@@ -18,6 +18,7 @@ From CR Require Import Proofs.ConfigPlugins.
 From CR Require Import Proofs.ConfigIface.
 From CR Require Import Proofs.ConfigSpec.
 From CR Require Import Proofs.ConfigWf.
+From CR Require gen.ExtConfig.
 Local Open Scope Z_scope.
 
 (* accepted exactly when the documented constraints hold -- for every lexed document, of any size *)
@@ -69,6 +70,24 @@ Proof.
   cbn [if_max if_min if_lifetime if_hop]. unfold max_interval_v, default_lifetime_v, hop_v.
   rewrite H1, H2, H3, H4. vm_compute. auto.
 Qed.
+
+(* the literals read from the *current source tree* by goextract (gen/ExtConfig.v, regenerated on
+   every check) are the documented ones used by the model and the specification: default
+   max_interval 600 s, hop limit 64, prefix lifetimes 24 h / 4 h, route lifetime 24 h,
+   64:ff9b::/96, the six NAT64 lengths, 8191 * 8 s.  A source edit of any of them breaks this proof. *)
+Theorem C02_extracted_literals :
+  ExtConfig.cfg_default_max_interval = 600 * sec /\
+  ExtConfig.cfg_default_hop_limit = 64 /\
+  ExtConfig.cfg_default_valid_lifetime = 24 * hour /\
+  ExtConfig.cfg_default_preferred_lifetime = 4 * hour /\
+  ExtConfig.cfg_default_route_lifetime = 24 * hour /\
+  (ExtConfig.cfg_default_pref64_addr, Z.to_N ExtConfig.cfg_default_pref64_bits) = default_pref64 /\
+  default_pref64 = well_known_pref64 /\
+  map Z.to_N ExtConfig.cfg_pref64_lengths = nat64_lengths /\
+  nat64_lengths = pref64_lengths /\
+  ExtConfig.cfg_max_pref64_lifetime = max_pref64_lifetime /\
+  max_pref64_lifetime = 65528 * sec.
+Proof. vm_compute. repeat split; reflexivity. Qed.
 
 (* ---------------------------------------------------------------- non-vacuity *)
 
@@ -128,6 +147,7 @@ Print Assumptions C02_total.
 Print Assumptions C02_cfg_wf.
 Print Assumptions C02_cfg_wfb.
 Print Assumptions C02_default_intervals.
+Print Assumptions C02_extracted_literals.
 Print Assumptions C02_example_reference.
 Print Assumptions C02_example_accepts.
 Print Assumptions C02_example_wf.
